@@ -18,7 +18,9 @@
 #include <unordered_map>
 
 #include <cctype>                    // to get std::tolower
+#include <cerrno>                    // to get errno, ERANGE
 #include <cstdarg>                   // to get va_start, va_end
+#include <limits>                    // to get std::numeric_limits
 
 
 namespace uncrustify
@@ -582,10 +584,16 @@ bool read_number(const char *in, Option<T> &out)
 {
    assert(in);
 
-   char       *c;
+   char *c;
+
+   errno = 0;
    const auto val = std::strtol(in, &c, 10);
 
+   // a value that does not fit the option's type must not be truncated silently
    if (  *c == 0
+      && errno != ERANGE
+      && val >= static_cast<long>(std::numeric_limits<T>::min())
+      && val <= static_cast<long>(std::numeric_limits<T>::max())
       && out.validate(val))
    {
       out.m_val = static_cast<T>(val);
